@@ -63,6 +63,10 @@ def stoichCols (idx : List String) (rxns : List RxnDef) : List (List Int) :=
 def delayStoichCols (idx : List String) (rxns : List RxnDef) : List (List Int) :=
   rxns.map (fun r => stoichColumn idx r.dReactants r.dProducts)
 
+/-- reactant multiplicities (immediate and delayed) per reaction, as columns over the species index. -/
+def reactantCols (idx : List String) (rxns : List RxnDef) : List (List Nat) :=
+  rxns.map (fun r => idx.map (fun s => (r.reactants ++ r.dReactants).count s))
+
 /-- entry `[s, r]` of a matrix given by columns. -/
 def entry (cols : List (List Int)) (s r : Nat) : Int := (cols.getD r []).getD s 0
 
@@ -98,15 +102,23 @@ def derivative (nSpecies : Nat) (U D : List (List Int)) (props : List (Propensit
   let rates := computePropensities .det props x p 1 t
   (List.range nSpecies).map (derivRow U D rates)
 
-/-- `SafeModelCSimInterface.initialize_reaction_inputs`: for reaction `r` the
-species consumed by the immediate or the delayed part, in species order, each
-with the largest amount that could be consumed. -/
-def safeInputs (nSpecies : Nat) (U D : List (List Int)) (r : Nat) : List (Nat × Int) :=
+/-- reactant multiplicities of reaction `r` (immediate and delayed reactants together) per species
+index, as `SafeModelCSimInterface.initialize_reaction_inputs` reads them off the model's reaction
+definitions. -/
+def needOf (R : List (List Nat)) (s r : Nat) : Nat := (R.getD r []).getD s 0
+
+/-- `SafeModelCSimInterface.initialize_reaction_inputs`: for reaction `r` the species that are
+consumed by the immediate or the delayed part *or are reactants (catalysts included)*, in species
+order, each with the largest amount that could be consumed and never less than the number of
+copies needed as reactants. -/
+def safeInputs (nSpecies : Nat) (U D : List (List Int)) (R : List (List Nat)) (r : Nat) : List (Nat × Int) :=
   (List.range nSpecies).filterMap (fun s =>
     let u := entry U s r
     let d := entry D s r
-    if u < 0 ∨ d < 0 then
-      some (s, if u < 0 ∧ d < 0 then -(u + d) else -(min u d))
+    let need : Int := (needOf R s r : Nat)
+    if u < 0 ∨ d < 0 ∨ need > 0 then
+      let req := if u < 0 ∧ d < 0 then -(u + d) else -(min u d)
+      some (s, if need > req then need else req)
     else none)
 
 /-- the `while` scan of the safe interface's stochastic propensities:
@@ -132,10 +144,10 @@ def safeDetOne (inputs : List (Nat × Int)) (x p : Nat → α) (t : α) (q : Pro
     let a := q.det x p t
     if a < 0 then 0 else a
 
-def computePropensitiesSafe (m : Mode) (nSpecies : Nat) (U D : List (List Int))
+def computePropensitiesSafe (m : Mode) (nSpecies : Nat) (U D : List (List Int)) (R : List (List Nat))
     (props : List (Propensity α)) (x p : Nat → α) (V t : α) : List α :=
   (List.range props.length).zip props |>.map (fun rq =>
-    let inputs := safeInputs nSpecies U D rq.1
+    let inputs := safeInputs nSpecies U D R rq.1
     match m with
     | .det => safeDetOne inputs x p t rq.2
     | .vol => rq.2.vol x p V t     -- not overridden by the safe interface
